@@ -100,28 +100,29 @@ type closedEnt struct {
 
 // World is the state of one execution.
 type World struct {
-	cfg      Config
-	threads  []*Thread
-	cur      *Thread
-	driver   *Thread
-	now      int64 // ns
-	timers   []*timerEnt
-	timerSeq int
-	closed   map[uintptr]closedEnt
-	trace    []Choice
-	window   bool
-	dead     bool
-	deadlock bool
-	horizon  bool
-	res      *Result
-	steps    int
-	maxSteps int
-	rrand    []int // recorded data choices (RecordRand)
-	recRand  bool
-	repRand  []int
-	repPos   int
-	repArity []int
-	repTaken []int
+	cfg       Config
+	threads   []*Thread
+	cur       *Thread
+	driver    *Thread
+	now       int64 // ns
+	timers    []*timerEnt
+	timerSeq  int
+	closed    map[uintptr]closedEnt
+	trace     []Choice
+	window    bool
+	dead      bool
+	deadlock  bool
+	horizon   bool
+	res       *Result
+	steps     int
+	maxSteps  int
+	rrand     []int // recorded data choices (RecordRand)
+	recRand   bool
+	repRand   []int
+	repFrozen bool // replaying the same draws a second time (RewindRand): the enumeration record is not extended
+	repPos    int
+	repArity  []int
+	repTaken  []int
 	// hooks for harness observation
 	OnTimerFire func(label string, now int64)
 }
@@ -527,8 +528,10 @@ func Choose(n int, label string) int {
 			c = w.repRand[w.repPos]
 		}
 		w.repPos++
-		w.repArity = append(w.repArity, n)
-		w.repTaken = append(w.repTaken, c)
+		if !w.repFrozen {
+			w.repArity = append(w.repArity, n)
+			w.repTaken = append(w.repTaken, c)
+		}
 		return c
 	}
 	c := 0
@@ -720,6 +723,7 @@ func (e *Env) ForAllRand(f func(draws []int)) int {
 	rec = func(prefix []int) {
 		e.w.repRand = append([]int{}, prefix...)
 		e.w.repPos = 0
+		e.w.repFrozen = false
 		e.w.repArity, e.w.repTaken = nil, nil
 		if e.w.repRand == nil {
 			e.w.repRand = []int{}
@@ -737,8 +741,13 @@ func (e *Env) ForAllRand(f func(draws []int)) int {
 	}
 	rec(nil)
 	e.w.repRand = nil
+	e.w.repFrozen = false
 	return n
 }
+
+// RewindRand (inside ForAllRand's f) restarts the replayed draw sequence from its beginning for a second,
+// reference run with the same draws; draws taken from now on do not extend the enumeration.
+func (e *Env) RewindRand() { e.w.repPos = 0; e.w.repFrozen = true }
 
 // StopReplayRand returns to explored data choices.
 func (e *Env) StopReplayRand() { e.w.repRand = nil }
